@@ -89,7 +89,9 @@ func runStepQ(db *redka.DB, mode string, st step, quiet bool) {
 		e := &env{r: redis.RedkaDB(db), db: db}
 		t0 = nowMs()
 		var raw string
-		func() {
+		done := make(chan struct{})
+		go func() {
+			defer close(done)
 			defer func() {
 				if r := recover(); r != nil {
 					raw = "PANIC"
@@ -97,6 +99,15 @@ func runStepQ(db *redka.DB, mode string, st step, quiet bool) {
 			}()
 			raw = st.run(e, ident)
 		}()
+		select {
+		case <-done:
+		case <-time.After(wireHangAfter):
+			// the call never returned (a deadlock on the single read-write connection, say): nothing
+			// more can be learnt from this process
+			fmt.Fprintf(out, "%d %d %s | %s | %s | HANG | %s\n", seq, nowMs(), mode, pre.render(ident), st.text, pre.render(ident))
+			out.Flush()
+			os.Exit(0)
+		}
 		t1 = nowMs()
 		post, derr = takeDump(db.RW)
 		if derr != nil {
